@@ -178,6 +178,32 @@ def _awaited_new_coroutine(crate, known, blocks, op):
     return None
 
 
+def _callback_origin(blocks, op, hops=6):
+    """what a called value is, when the blocks at hand say so: ("closure", def) for a closure built in them, ("fn", callee) for a function named in
+    them; followed through single plain copies"""
+    while hops > 0:
+        hops -= 1
+        if isinstance(op, list) and len(op) == 2 and op[0] == "k" and isinstance(op[1], dict) and isinstance(op[1].get("fn"), dict):
+            return ("fn", op[1]["fn"])
+        if not (isinstance(op, list) and op and op[0] in ("m", "c")) or op[1][1]:
+            return None
+        loc = op[1][0]
+        defs = [st for bl in blocks for st in bl.get("s", ()) if st[0] == "A" and st[1][0] == loc and not st[1][1]]
+        if len(defs) != 1:
+            return None
+        rv = defs[0][2]
+        if rv[0] == "agg" and isinstance(rv[1], dict) and rv[1].get("closure"):
+            return ("closure", rv[1]["closure"])
+        if rv[0] == "use":
+            op = rv[1]
+            continue
+        if rv[0] == "ref" and not rv[2][1]:
+            op = ["c", rv[2]]
+            continue
+        return None
+    return None
+
+
 def inline_new_helpers(crate, raw, defpath, depth=3):
     """Splice the bodies of crate-local functions that are not in the frozen function list into `raw` (the MIR facts of a known function)."""
     known = _known_fns().get(crate.name)
@@ -195,6 +221,32 @@ def inline_new_helpers(crate, raw, defpath, depth=3):
         t = blocks[i]["t"]
         cal = t.get("callee") if t.get("k") == "call" else None
         d = cal.get("def") if isinstance(cal, dict) else None
+        # a callback that arrived as a parameter of a spliced helper (`with_uplink(.., |uplink| ..)`, `with_uplink(.., mark_synced)`): once the helper
+        # is part of its caller the value called is in sight - a closure built here, or a function named here - and the call can be resolved
+        if out is not None and isinstance(cal, dict) and not cal.get("resolved") and cal.get("name") in ("call", "call_mut", "call_once") and len(t.get("args", [])) == 2 \
+                and budget > 0 and not blocks[i].get("cleanup"):
+            org = _callback_origin(blocks, t["args"][0])
+            if org is not None and org[0] == "closure" and org[1] in crate.by_def:
+                cal = dict(cal, **{"def": org[1], "via": {"name": cal.get("name")}, "resolved": True, "local": True})
+                d = org[1]
+                known = set(known) - {d} if d in known and False else known
+            elif org is not None and org[0] == "fn" and isinstance(org[1], dict) and org[1].get("def") in crate.by_def:
+                tup = t["args"][1]
+                tp = tup[1] if isinstance(tup, list) and tup and tup[0] in ("m", "c") else None
+                try:
+                    n_args = crate._raw(org[1]["def"])["argc"]
+                except Exception:
+                    n_args = None
+                if tp is not None and n_args is not None:
+                    nt = dict(t)
+                    nt["callee"] = dict(org[1])
+                    nt["args"] = [["m", [tp[0], list(tp[1]) + [["f", k, str(k)]]]] for k in range(n_args)]
+                    nb = dict(blocks[i])
+                    nb["t"] = nt
+                    blocks[i] = nb
+                    t = nt
+                    cal = nt["callee"]
+                    d = cal.get("def")
         if d and d in crate.by_def and d not in known and d != defpath and "{closure" not in d and budget > 0 and inlined.count(d) < 8 and not blocks[i].get("cleanup"):
             try:
                 craw = crate._raw(d)
